@@ -22,7 +22,8 @@ theorem Inv.step_to {g : GState} (h : Inv cfg g) {s' : State} {ms : List Nat}
     (hfr : FramesOK cfg s' s'.minAlign s'.frames ms) (hms : ∀ m ∈ ms, m ≤ s'.nextId)
     (hcps : ∀ x ∈ s'.userCps, x ∈ g.s.userCps ∨ CpOK cfg s' x.2.1 x.2.2)
     (hprep : ∀ p, s'.prepared = some p → PrepOK cfg s' p) : Inv cfg ⟨s', ms⟩ :=
-  ⟨h.cfgOK, hgeom, hdisj, hlive, hun, hnc, hlc, hids, hfr, hms,
+  ⟨h.cfgOK, hgeom, hdisj, hlive, hun, hnc, hlc, hids,
+   fun b hb => (hsub b hb).elim (fun hb' => h.aligns b hb') (fun hb' => hb'.2), hfr, hms,
    fun x hx => (hcps x hx).elim (fun hx' => (h.cps x hx').mono hcov hsub hn) id, hprep⟩
 
 theorem mem_filter_sub {α} {p : α → Bool} {l : List α} {x : α} (h : x ∈ l.filter p) : x ∈ l :=
@@ -179,7 +180,7 @@ theorem inv_after_resetTo {g : GState} (h : Inv cfg g) {ma : Nat} (hma : MinAlig
   · intro b hb
     rcases hsub b hb with hb' | hb'
     · have := h.ids b hb'; omega
-    · exact absurd (h.ids b ((hst.live ▸ mem_filter_sub hb))) (by omega)
+    · exact absurd (h.ids b ((hst.live ▸ mem_filter_sub hb))) (by have := hb'.1; omega)
   · show FramesOK cfg _ s1.minAlign fs ms
     rw [e4]
     exact hfr.mono' hcov hsub hn
